@@ -40,16 +40,17 @@ def classify_segment(toks, name, dot, icase, observed, fn_mode=True, nosep=''):
 def classify_path(toks, path, ps, observed):
     """Attribute a path-mode (no file system) disagreement."""
 
-    if '\n' in path:
-        return 'KF-DOLLAR-NEWLINE'
-    for q, fid in (('B', 'KF-DOTGUARD-IN-REPEAT'), ('A', 'KF-DOTGUARD-POSITIONAL'),
-                   (('MBGS',), 'KF-MATCHBASE-GLOBSTAR-HIDDEN')):
+    cands = [('B', 'KF-DOTGUARD-IN-REPEAT'), ('A', 'KF-DOTGUARD-POSITIONAL'), (('MBGS',), 'KF-MATCHBASE-GLOBSTAR-HIDDEN'),
+             (('A', 'B'), 'KF-DOTGUARD-POSITIONAL'), (('MBGS', 'A'), 'KF-MATCHBASE-GLOBSTAR-HIDDEN'),
+             (('MBGS', 'B'), 'KF-MATCHBASE-GLOBSTAR-HIDDEN')]
+    if ps.dot and not ps.nodotdir:
+        cands += [(('A', 'D'), 'KF-NEGGROUP-DOT-UNGUARDS-DOTDIR'), (('A', 'B', 'D'), 'KF-NEGGROUP-DOT-UNGUARDS-DOTDIR')]
+    if path.endswith('\n'):
+        cands = [(('NL',), 'KF-DOLLAR-NEWLINE')] + cands
+    for q, fid in cands:
         try:
-            if R.path_match3(toks, path, ps, quirks=frozenset(q)) == observed:
+            if R.path_match3(toks, path, ps, quirks=frozenset(q)) in (observed, None):
                 return fid
         except RecursionError:
             pass
-    _abs, segs, _trail = R.split_segments(toks)
-    if any(_first_guarded_star_then_stargroup(R.norm_seg(s)) for s in segs):
-        return 'KF-STARSTAR-EXTGROUP'
     return None
